@@ -279,6 +279,45 @@ theorem deltaLerp_snaps (speed : Rat) (prev : V3) (t : Tick) (v : Value)
     deltaLerpStep speed prev t v = (v.promote.as3, v.promote) := by
   simp [deltaLerpStep, h]
 
+/-- the modifier's memory *is* its previous output: after every step the stored vector equals the returned value (read as
+    3-D), and it has no component beyond the value's dimension — so `prev` in `deltaLerp_between` is "the previous output"
+    along every history of inputs of one dimension (a snap that did not store the target would break exactly this) -/
+theorem deltaLerp_state_is_output (speed : Rat) (prev : V3) (t : Tick) (v : Value)
+    (hprev : (Value.ofV3 prev v.promote.dim).as3 = prev) :
+    let r := deltaLerpStep speed prev t v
+    r.2.as3 = r.1 ∧ (Value.ofV3 r.1 v.promote.dim).as3 = r.1 ∧ r.2.dim = v.promote.dim := by
+  obtain ⟨px, py, pz⟩ := prev
+  simp only [deltaLerpStep]
+  split_ifs with hc
+  · cases v <;> simp_all [Value.promote, Value.dim, Value.ofV3, Value.convert, Value.as3, Value.as1, Value.as2]
+  · cases v <;>
+      simp_all [Value.promote, Value.dim, Value.ofV3, Value.convert, Value.as3, Value.as1, Value.as2, lerp3, V3.scale,
+        V3.add_def''] <;>
+      first
+        | (obtain ⟨rfl, rfl⟩ := hprev; constructor <;> ring)
+        | (subst hprev; ring)
+where
+  V3.add_def'' (a b : V3) : a + b = ⟨a.x + b.x, a.y + b.y, a.z + b.z⟩ := rfl
+
+/-- history form of "the output lies between the previous output and the current input": two consecutive applications to
+    inputs of the same dimension -/
+theorem deltaLerp_between_outputs (speed : Rat) (prev : V3) (t1 t2 : Tick) (v1 v2 : Value)
+    (hdim : v1.promote.dim = v2.promote.dim) (hprev : (Value.ofV3 prev v1.promote.dim).as3 = prev)
+    (hs : 0 ≤ speed) (hd : 0 ≤ t2.delta) :
+    let r1 := deltaLerpStep speed prev t1 v1
+    let r2 := deltaLerpStep speed r1.1 t2 v2
+    between r1.2.as3.x v2.promote.as3.x r2.2.as3.x ∧ between r1.2.as3.y v2.promote.as3.y r2.2.as3.y
+      ∧ between r1.2.as3.z v2.promote.as3.z r2.2.as3.z := by
+  intro r1 r2
+  have h1 := deltaLerp_state_is_output speed prev t1 v1 hprev
+  have h2 := deltaLerp_state_is_output speed r1.1 t2 v2 (by rw [← hdim]; exact h1.2.1)
+  rw [h1.1, h2.1]
+  exact deltaLerp_between speed r1.1 t2 v2 hs hd
+
+/-- the hypotheses are met by the initial memory (zero) and every input -/
+example (v : Value) : (Value.ofV3 V3.zero v.promote.dim).as3 = V3.zero := by
+  cases v <;> simp [Value.promote, Value.dim, Value.ofV3, Value.convert, Value.as3, Value.as1, Value.as2, V3.zero]
+
 /-- D4 (fixed by 4a1b141): without the clamp the output overshoots when delta * speed > 1 -/
 theorem legacy_overshoot : ¬ between (0 : Rat) 1 ((0 : Rat) * (1 - (1/4) * 8) + 1 * ((1/4) * 8)) := by
   unfold between; norm_num
